@@ -68,7 +68,7 @@ def _w_list(_):
             fns.append({"name": f, **_src(f)})
         out.append({"name": p.name, "cases": list(range(len(p.cases))), "labels": [harness.case_label(c) for c in p.cases],
                     "level": p.level, "bounded": p.bounded, "samples": p.samples, "functions": fns, "uses": p.uses,
-                    "note": p.note, "inlined": p.inlined, "timeout": p.timeout})
+                    "note": p.note, "inlined": p.inlined, "timeout": p.timeout, "thorough_only": p.thorough_only})
     return {"proofs": out, "extraction": loader.extraction_report()}
 
 
@@ -250,7 +250,8 @@ def do_check(a):
     proofs = listing["proofs"]
     if a.only:
         proofs = [p for p in proofs if a.only in p["name"]]
-    sjobs = [(p["name"], ci, vc_timeout, job_timeout, seed) for p in proofs if p["level"] != "B" for ci in p["cases"]]
+    sjobs = [(p["name"], ci, vc_timeout, job_timeout, seed) for p in proofs
+             if p["level"] != "B" and (tier == "thorough" or not p["thorough_only"]) for ci in p["cases"]]
     nsamp = (lambda p: p["samples"] if tier == "quick" else p["samples"] * 8)
     cjobs = [(p["name"], ci, None, seed, nsamp(p)) for p in proofs if p["bounded"] for ci in p["cases"]]
 
@@ -313,13 +314,14 @@ def do_check(a):
         engine_errors.append(f"model conformance failed: {conf[:3]}")
 
     # ---- lock
-    locked = lock.get(prop, [])
+    lock_key = prop if tier == "quick" else prop + ":thorough"
+    locked = lock.get(lock_key, [])
     if a.relock:
-        lock[prop] = sorted(obligations)
+        lock[lock_key] = sorted(obligations)
         os.makedirs(os.path.dirname(LOCK), exist_ok=True)
         with open(LOCK, "w") as fh:
             json.dump(lock, fh, indent=0, sort_keys=True)
-        locked = lock[prop]
+        locked = lock[lock_key]
         print(f"relocked {len(locked)} obligations for {prop}")
     if not a.only:
         for oid in locked:
@@ -391,6 +393,10 @@ def do_check(a):
                     payload["native_replay"] = {"failures": [f]}
                     confirmed = True
                     break
+        if not confirmed and rec["text"].startswith("numeric"):
+            # a float counter-model of the VC that does not reproduce natively: not a verifier verdict
+            undecided.append(f"{oid}: solver unknown; numeric counter-model did not replay natively")
+            continue
         path = write_replay(prop, payload)
         payload["replay_cmd"] = f"./check {prop} --replay {path}"
         with open(path, "w") as fh:
